@@ -153,9 +153,20 @@ def check(run):
         run.notes.append("C++ side not built yet")
     need_sweep = run.tier == "thorough" or any(r.status != "ok" for r in run.reports) or run.undecided
     native_sweep(run, 400 if run.tier == "thorough" else (120 if need_sweep else 60))
+    from checks import cxx_filter
+
+    cxx_filter.config_max_dt_literal(run, "C10")
 
 
 def replay_file(payload):
+    if (payload.get("inputs") or {}).get("config_literal"):
+        from checks import cxx_filter
+        from pvc import driver as _d
+
+        r = _d.PropertyRun("C10", "quick", 0)
+        cxx_filter.config_max_dt_literal(r, "C10")
+        print("replay config literal:", [f.what for f in r.findings][:2] or "exact")
+        return not r.findings
     inp = payload.get("inputs", {})
     if payload.get("language") == "python" and inp.get("history"):
         from checks import C11
